@@ -1,8 +1,9 @@
 #!/bin/bash
-# tools/build.sh [make targets...]   e.g. tools/build.sh Properties/C06.vo   (serialised with the driver's lock)
+# tools/build.sh [make targets...]   e.g. tools/build.sh Properties/C06.vo
+# Only the project/Makefile generation is serialised; the build runs under a time and memory limit.
 V="$(cd "$(dirname "$0")/.." && pwd)"
-exec flock "$V/coq/.build.lock" bash -c "
+flock "$V/coq/.build.lock" bash -c "
   '$V/tools/gen_coqproject.sh'
   cd '$V/coq'
-  if [ ! -f Makefile ] || [ _CoqProject -nt Makefile ]; then coq_makefile -f _CoqProject -o Makefile >/dev/null; fi
-  timeout 2400 make -j8 $*"
+  if [ ! -f Makefile ] || [ _CoqProject -nt Makefile ]; then coq_makefile -f _CoqProject -o Makefile >/dev/null; fi"
+cd "$V/coq" && ulimit -v 12000000 && exec timeout 1500 make -j8 "$@"
